@@ -306,6 +306,7 @@ Builtin(f, S, vs) ==
                      ELSE IF vs[1].t = "int" /\ (vs[1].v < 0 \/ vs[1].v > 255) THEN RE(S, ERange)
                      ELSE RE(S, EOther("wide"))
     [] f = "error" -> R(S, VTup(<<VStr(S.cerr.name), VStr("")>>))
+    [] f = "random" -> R(S, VDec(1))      \* a documented global input: some non-null decimal (generators only test isnull)
     [] OTHER -> RE(S, EOther("wide"))
 
 \* read the value at a place
